@@ -256,7 +256,7 @@ func trExecTask() string {
 	fmt.Fprintf(&b, "Definition et_sigint_ms : N := %d.          (* SIGINT_TIMEOUT *)\n", intMs)
 	fmt.Fprintf(&b, "Definition et_kill_transition_ms : N := %d. (* KILL_TRANSITION_TIMEOUT *)\n", killTrMs)
 	fmt.Fprintf(&b, "Definition et_startup_poll_ms : N := %d.     (* startupPollingInterval *)\n", pollMs)
-	fmt.Fprintf(&b, "Definition et_startup_timeout_ms : N := %d.(* startupTimeout *)\n", startMs)
+	fmt.Fprintf(&b, "Definition et_startup_timeout_ms : N := %d. (* startupTimeout *)\n", startMs)
 	fmt.Fprintf(&b, "Definition et_running_delay_ms : N := %d.    (* time.AfterFunc delay of TASK_RUNNING in doLaunch *)\n", runMs)
 	fmt.Fprintf(&b, "Definition et_pending_cap : N := %d.           (* cap(pendingFinalTaskStateCh) *)\n", capv)
 	fmt.Fprintf(&b, "Definition et_stop_guards_nil : bool := %v. (* ensureBasicTaskKilled tests ProcessState != nil before Exited() *)\n", guard)
